@@ -324,6 +324,45 @@ def s_values_prefix_in_set(ex, args, kwargs, st, node):
     return VBool(z3.ForAll([j], z3.Implies(z3.And(0 <= j, j < n, recog("l")(v)), z3.IsSubset(S(acc("l")(v)), sv.payload("sti")))))
 
 
+def set_from_values_prefix(registry, n, s):
+    """converse of values_prefix_in_set: every member of the set s is a code of one of the first n entries (in key order) of `registry`"""
+    vals = [v for v in list(registry.values())[:n] if isinstance(v, list)]
+    return all(any(c in v for v in vals) for c in s)
+
+
+def s_set_from_values_prefix(ex, args, kwargs, st, node):
+    from .sym import ISetS
+    reg = ex.need(ex.as_val(args[0], st, node), "d", st, node)
+    n = ex.need_int(ex.as_val(args[1], st, node), st, node)
+    sv = ex.as_val(args[2], st, node)
+    S = z3.Function("py.iset_of_list", ListS, ISetS)
+    ks = z3.Function("py.keys", DictS, ListS)(reg)
+    cc = z3.Const("c!sv", z3.IntSort())
+    j = z3.Const("j!sv", z3.IntSort())
+    v = z3.Select(reg, acc("s")(ks[j]))
+    return VBool(z3.ForAll([cc], z3.Implies(z3.IsMember(cc, sv.payload("sti")),
+                                            z3.Exists([j], z3.And(0 <= j, j < n, recog("l")(v), z3.IsMember(cc, S(acc("l")(v))))))))
+
+
+def codes_all_registered(registry, codes):
+    """every code in the list `codes` is a code of some client entry of `registry` (nothing stale, nothing invented)"""
+    return all(any(isinstance(v, list) and c in v for v in registry.values()) for c in codes)
+
+
+def s_codes_all_registered(ex, args, kwargs, st, node):
+    from .sym import ISetS
+    reg = ex.need(ex.as_val(args[0], st, node), "d", st, node)
+    res = ex.need(ex.as_val(args[1], st, node), "l", st, node)
+    S = z3.Function("py.iset_of_list", ListS, ISetS)
+    cc = z3.Const("c!cr", z3.IntSort())
+    k = z3.Const("k!cr", StrS)
+    v = z3.Select(reg, k)
+    return VBool(z3.ForAll([cc], z3.Implies(z3.IsMember(cc, S(res)), z3.Exists([k], z3.And(recog("l")(v), z3.IsMember(cc, S(acc("l")(v))))))))
+
+
+SYMBOLIC.update({"set_from_values_prefix": s_set_from_values_prefix, "codes_all_registered": s_codes_all_registered})
+
+
 def int_lists_dict(registry):
     return all(isinstance(v, list) and all(isinstance(c, int) and not isinstance(c, bool) for c in v) for v in registry.values())
 
